@@ -21,6 +21,7 @@ import (
 	"io"
 	"os"
 	"os/exec"
+	"strconv"
 	"strings"
 	"sync"
 	"time"
@@ -35,9 +36,19 @@ type Req struct {
 }
 
 type Resp struct {
-	Status int    `json:"status"`
-	Body   string `json:"body"` // base64, truncated
-	Len    int    `json:"len"`
+	Status  int    `json:"status"`
+	Body    string `json:"body"` // base64, truncated
+	Len     int    `json:"len"`
+	Timeout bool   `json:"timeout,omitempty"` // the handler did not return within the child's deadline
+}
+
+// how long the child waits for one handler before it reports a timeout and moves on (the
+// handler's goroutine keeps running, as it would in a real server)
+func childDeadline() time.Duration {
+	if ms, err := strconv.Atoi(os.Getenv("DVCHILD_TIMEOUT_MS")); err == nil && ms > 0 {
+		return time.Duration(ms) * time.Millisecond
+	}
+	return 8 * time.Second
 }
 
 const maxBody = 4096
@@ -48,6 +59,7 @@ func Serve() {
 	dv.Open()
 	in := bufio.NewReaderSize(os.Stdin, 1<<20)
 	out := bufio.NewWriter(os.Stdout)
+	deadline := childDeadline()
 	for {
 		line, err := in.ReadBytes('\n')
 		if len(line) > 0 {
@@ -64,19 +76,27 @@ func Serve() {
 			if q.Body != "" {
 				body, _ = base64.StdEncoding.DecodeString(q.Body)
 			}
-			if q.Method == "POST" && body == nil {
-				body = []byte{}
+			if body == nil {
+				body = []byte{} // a real server never hands a handler a nil Body
 			}
-			r := dv.Do(q.Method, q.URL, body)
-			b := r.Body
-			if len(b) > maxBody {
-				b = b[:maxBody]
+			done := make(chan dv.Resp, 1)
+			go func() { done <- dv.Do(q.Method, q.URL, body) }()
+			var resp Resp
+			select {
+			case r := <-done:
+				b := r.Body
+				if len(b) > maxBody {
+					b = b[:maxBody]
+				}
+				st := r.Status
+				if r.Panic {
+					st = 599 // a panic that escaped recoverHandler inside the request goroutine
+				}
+				resp = Resp{Status: st, Body: base64.StdEncoding.EncodeToString(b), Len: len(r.Body)}
+			case <-time.After(deadline):
+				resp = Resp{Timeout: true}
 			}
-			st := r.Status
-			if r.Panic {
-				st = 599 // a panic that escaped recoverHandler inside the request goroutine
-			}
-			js, _ := json.Marshal(Resp{Status: st, Body: base64.StdEncoding.EncodeToString(b), Len: len(r.Body)})
+			js, _ := json.Marshal(resp)
 			out.Write(js)
 			out.WriteByte('\n')
 			out.Flush()
@@ -92,7 +112,7 @@ func Serve() {
 
 // Outcome of one request as seen from outside the server process.
 type Outcome struct {
-	Class  string // "2xx" | "4xx" | "5xx-panic" | "5xx" | "dead" | "hang" | "other"
+	Class  string // "2xx" | "4xx" | "5xx-panic" | "5xx" | "timeout" (handler still running, child alive) | "dead" | "hang" (child silent) | "other"
 	Status int
 	Body   []byte
 	Stderr string // crash report when the child died
@@ -199,6 +219,8 @@ func (c *Client) Do(method, url string, body []byte) Outcome {
 		b, _ := base64.StdEncoding.DecodeString(r.Body)
 		o := Outcome{Status: r.Status, Body: b}
 		switch {
+		case r.Timeout:
+			o.Class = "timeout"
 		case r.Status >= 200 && r.Status < 300:
 			o.Class = "2xx"
 		case r.Status >= 400 && r.Status < 500:
@@ -258,6 +280,15 @@ func (c *Client) crashReport() string {
 		s = s[len(s)-400:]
 	}
 	return s
+}
+
+// Kill terminates the child at once (used when one of its handlers is stuck).
+func (c *Client) Kill() {
+	if c.dead {
+		return
+	}
+	c.cmd.Process.Kill()
+	c.reap()
 }
 
 // Quit asks the child to shut down cleanly.
